@@ -119,8 +119,11 @@ class Space:
         tasks never run at the same instant."""
         allt = [(w, a, b, dd) for (w, a, b, dd) in self.running] + [(w, st_, st_ + r, dd) for (w, _s, st_, r, dd) in placed + [opt]]
         caps = dict(self.workers)
+        n_running = len(self.running)
         for i, (w1, a1, b1, d1) in enumerate(allt):
             for wid, cap in caps.items():
+                if i < n_running and wid != w1:
+                    continue  # a task that is already running is only constrained on the worker it runs on
                 use = dict(d1) if w1 == wid else {}
                 for j, (w2, a2, b2, d2) in enumerate(allt):
                     if i != j and w2 == wid and not (a1 > b2 or b1 < a2):
